@@ -3,7 +3,8 @@
 Finite keys: column I = floor(x/2) in 0..3, row J0 = floor((y+3)/2) in 0..2 and the outcomes of the
 two diagonal tests inside the unit square (4 triangles).  For every key whose triangle lies inside
 the image of the projection, the returned base cell must be the one whose diamond contains the
-triangle's centroid (model).  Points exactly on a diagonal / seam are NOT covered (float ties)."""
+triangle's centroid (model).  Dyadic points exactly on the two diagonals are tested too, with the convention that a cell owns its
+S->E and S->W edges (the tests are read at those points by exact evaluation of the extracted formula)."""
 from fractions import Fraction as F
 from sym import Engine, show, C, walk
 from topology import base_centre
@@ -20,6 +21,36 @@ def model_base_cell(X, Y):
     return None
 
 
+def feval(t, env, eng, depth=0):
+    """exact evaluation of a small float term on dyadic inputs (reading the extracted formula at a
+    point; no code of the crate is run)"""
+    from mir import f64_from_bits
+    if t in env: return env[t]
+    k = t[0]
+    if k == 'c':
+        if t[1] == 'f64': return f64_from_bits(t[2])
+        return float(t[2])
+    if k == 'op':
+        a, b = feval(t[3], env, eng, depth + 1), feval(t[4], env, eng, depth + 1)
+        if a is None or b is None: return None
+        return {"add": a + b, "sub": a - b, "mul": a * b, "lt": a < b, "le": a <= b, "gt": a > b, "ge": a >= b}.get(t[1])
+    if k == 'cast' and t[1] == 'int_to_float': return feval(t[3], env, eng, depth + 1)
+    if k == 'phi' and depth < 8:
+        g = eng.phi_gate.get(t)
+        if g is not None:
+            c = feval(g[0], env, eng, depth + 1)
+            if c is None: return None
+            return feval(g[1] if c else g[2], env, eng, depth + 1)
+    return None
+
+
+# test points inside the unit square: 4 triangle centroids, and 4 points ON the diagonals with the
+# direction in which their owner lies (a cell owns its S->E and S->W edges)
+POINTS = [((F(1, 2), F(5, 6)), (0, 0)), ((F(1, 6), F(1, 2)), (0, 0)), ((F(5, 6), F(1, 2)), (0, 0)), ((F(1, 2), F(1, 6)), (0, 0)),
+          ((F(3, 4), F(1, 4)), (1, 1)), ((F(1, 4), F(3, 4)), (1, 1)),      # anti-diagonal: owner is up-right
+          ((F(1, 4), F(1, 4)), (-1, 1)), ((F(3, 4), F(3, 4)), (-1, 1))]    # main diagonal: owner is up-left
+
+
 def run(ctx, crate):
     clause = "base-cell-lookup"
     b = ctx.anchor(crate, FN, clause)
@@ -27,15 +58,13 @@ def run(ctx, crate):
     e0 = Engine(crate); r0 = e0.run(FN); ctx.functions |= e0.visited_fns
     if not r0.returns:
         ctx.undecided(clause, FN + ":symbolic", "no return value", at=b.span); return
-    # discover the key terms: the two float->u8 casts and the two float comparisons
-    casts = []; cmps = []
+    casts = []
     seen = set()
     def scan(t):
         for x in walk(t):
             if x in seen: continue
             seen.add(x)
             if x[0] == 'cast' and x[1] == 'float_to_int' and x[2] == 'u8' and x not in casts: casts.append(x)
-            if x[0] == 'op' and x[1] in ('le', 'ge', 'lt', 'gt') and x[2] == 'bool' and x not in cmps: cmps.append(x)
             if x[0] == 'phi':
                 for o in e0.phi_ops.get(x, ()): scan(o)
     scan(r0.ret)
@@ -49,37 +78,45 @@ def run(ctx, crate):
     row = [c for c in casts if mentions(c, py) and not mentions(c, px)]
     if len(col) != 1 or len(row) != 1:
         ctx.undecided(clause, FN + ":keys", "cannot identify the column / row casts (%d/%d)" % (len(col), len(row)), at=b.span); return
-    bad = []; n = 0
+    bad = []; n = 0; n_tie = 0
     for I in range(4):
         for J0 in range(3):
-            # the two diagonal tests, as they read once column and row are fixed
             e1 = Engine(crate); e1.subst = {col[0]: C('u8', I), row[0]: C('u8', J0)}
             r1 = e1.run(FN)
             cm = []
-            def scan1(t, seen1=set()):
+            def scan1(t, seen1):
                 for x in walk(t):
                     if x in seen1: continue
                     seen1.add(x)
-                    if x[0] == 'op' and x[1] in ('le', 'ge') and x[2] == 'bool' and x not in cm: cm.append(x)
+                    if x[0] == 'op' and x[1] in ('le', 'ge', 'lt', 'gt') and x[2] == 'bool' and x not in cm and (mentions(x, px) or mentions(x, py)): cm.append(x)
                     if x[0] == 'phi':
                         for o in e1.phi_ops.get(x, ()): scan1(o, seen1)
-            if r1.returns: scan1(r1.ret)
-            for d, loc in e1.branches: scan1(d)
-            nw = [c for c in cm if c[1] == 'le']; se = [c for c in cm if c[1] == 'ge']
-            if len(nw) != 1 or len(se) != 1:
-                ctx.undecided(clause, FN + ":keys(%d,%d)" % (I, J0), "cannot identify the two diagonal tests (%d/%d)" % (len(nw), len(se)), at=b.span); continue
-            for (fnw, fse), (cxp, cyp) in CENTROID.items():
-                X = 2 * (I + cxp); Y = 2 * (J0 + cyp) - 3
-                want = model_base_cell(X, Y)
-                if want is None: continue          # outside the image of the projection
+            s1 = set()
+            if r1.returns: scan1(r1.ret, s1)
+            for d, loc in e1.branches: scan1(d, s1)
+            # the wrap test of ensures_x_is_positive is a comparison of x alone with 0: not a key
+            keys = [c for c in cm if mentions(c, px) and mentions(c, py)]
+            if len(keys) != 2:
+                ctx.undecided(clause, FN + ":keys(%d,%d)" % (I, J0), "expected two tests relating x and y inside the unit square, found %d" % len(keys), at=b.span); continue
+            done = set()
+            for (xp, yp), (ox, oy) in POINTS:
+                X = 2 * (I + xp); Y = 2 * (J0 + yp) - 3
+                eps = F(1, 64)
+                want = model_base_cell(X + 2 * ox * eps, Y + 2 * oy * eps)
+                if want is None: continue
+                env = {px: float(X), py: float(Y)}
+                vals = tuple(feval(k, env, e1) for k in keys)
+                if any(v is None for v in vals):
+                    ctx.undecided(clause, FN + ":eval(%d,%d)" % (I, J0), "cannot evaluate the diagonal tests at (%s, %s)" % (X, Y), at=b.span); break
                 e = Engine(crate)
-                e.subst = {col[0]: C('u8', I), row[0]: C('u8', J0), nw[0]: C('bool', fnw), se[0]: C('bool', fse)}
+                e.subst = {col[0]: C('u8', I), row[0]: C('u8', J0), keys[0]: C('bool', int(vals[0])), keys[1]: C('bool', int(vals[1]))}
                 r = e.run(FN)
                 got = r.ret[2] if r.returns and r.ret[0] == 'c' else ("panic" if not r.returns else show(r.ret)[:60])
                 n += 1
-                if got != want: bad.append({"column": I, "row": J0, "north-west": fnw, "south-east": fse, "point": (float(X), float(Y)), "code": got, "model": want})
+                if (ox, oy) != (0, 0): n_tie += 1
+                if got != want: bad.append({"column": I, "row": J0, "point": (float(X), float(Y)), "on_seam": (ox, oy) != (0, 0), "code": got, "model": want})
     ctx.report(clause, FN + ":table", not bad and n >= 24,
-               "%d (column, row, triangle) keys inside the projection image: the returned base cell is the one containing the triangle" % n if not bad else
-               "%d of %d keys wrong, e.g. column %s row %s triangle (nw=%s, se=%s), point %s: code returns %s, the point lies in base cell %s" % (len(bad), n, bad[0]["column"], bad[0]["row"], bad[0]["north-west"], bad[0]["south-east"], bad[0]["point"], bad[0]["code"], bad[0]["model"]),
-               at=b.span, kind="N", sample={"keys": n, "mismatches": bad[:3]})
-    ctx.floor("base-cell-lookup-keys", n, 24)
+               "%d test points inside the projection image (%d of them ON a diagonal seam, owned by the cell whose S->E / S->W edge it is): the returned base cell is the model's" % (n, n_tie) if not bad else
+               "%d of %d points wrong, e.g. column %s row %s point %s%s: code returns %s, the point belongs to base cell %s" % (len(bad), n, bad[0]["column"], bad[0]["row"], bad[0]["point"], " (on a seam)" if bad[0]["on_seam"] else "", bad[0]["code"], bad[0]["model"]),
+               at=b.span, kind="N", sample={"points": n, "seam_points": n_tie, "mismatches": bad[:3]})
+    ctx.floor("base-cell-lookup-points", n, 24)
